@@ -86,6 +86,10 @@ def gen(rng, tier):
         if r >= rounds - 1 and deaths and (rng.random() < 0.7
                                            or r >= rounds):
             p = deaths.pop(0)
+            if rng.random() < 0.3:
+                # the application takes the pilot out of the task manager
+                # before it ends: its tasks stay bound to it
+                ops.append(['remove', p])
             ops.append(['die', p, rng.choice(FINAL), racy])
             if not racy:
                 ops.append(['sync'])
@@ -195,6 +199,10 @@ def run(seed, scenario, trace=None, tier='quick'):
                                 {'cmd': 'update', 'arg': arg})
                 elif op[0] == 'sync':
                     sync()
+                elif op[0] == 'remove':
+                    if op[1] < len(pids):
+                        sim.probe('remove_pilot')
+                        tmgr.remove_pilots(pids[op[1]])
                 elif op[0] == 'die':
                     _, p, state, racy = op
                     if racy:
